@@ -2085,7 +2085,15 @@ struct Explorer {
       if (auto* f = d.Get(kDeps)) dl = lp::ParseDepsLog(f->data);
       auto it = dl.deps.find(s.id);
       const vfs::File* o = d.Get(s.id);
-      if (it != dl.deps.end() && o && vfs::TickToNs(o->mtime) <= it->second.mtime) disc = it->second.deps;
+      if (it != dl.deps.end() && o && vfs::TickToNs(o->mtime) <= it->second.mtime) {
+        disc = it->second.deps;
+        // the truth is what the tool reported when the record was made (the simulated tool reports the same list every time):
+        // a name that ninja left out of the record is still a dependency of the project
+        for (auto& h : s.spec.hidden) {
+          string n = s.spec.Spelled(h);
+          if (find(disc.begin(), disc.end(), n) == disc.end()) disc.push_back(n);
+        }
+      }
     } else if (!s.depfile.empty()) {
       if (auto* f = d.Get(s.depfile)) {
         size_t c = f->data.find(':');
